@@ -61,10 +61,34 @@ def Env.nat (e : Env) (n : String) : Nat :=
 
 abbrev Gen := StateM StdGen
 
+/-- One step of a READ TRACE (what a decoder of this schema reads, in order), C16 trace tie.
+    `rd kind w` = a read of `w` bits of the current cell; kinds: `u` unsigned field, `i` signed field, `b` raw bit string,
+    `c` control bits (constructor tag, Maybe / Either bit, Bool, Unary), `v<l>` a `VarUInteger` with an `l`-bit length
+    prefix (`w` = prefix + 8·len).  `enter` / `leave` = the next reference of the current cell is entered (`^X`) /
+    left, fully consumed.  `rawref` = a reference taken unparsed (`^Cell`).  `push n` / `pop` = field-name / constructor
+    markers (no reads). -/
+inductive Ev where
+  | rd (kind : String) (w : Nat)
+  | enter | leave | rawref
+  | push (name : String) | pop
+  deriving Inhabited, DecidableEq
+
+/-- path enumeration mode (driver only): at most `cap` values per list; `loc` = stop at nested named types
+    (`typ`), which are then sampled instead of enumerated; `nested` = already inside a named type -/
+structure PMode where
+  cap : Nat
+  loc : Bool
+  nested : Bool
+
 structure Codec where
   enc : Val → Option Frag
   dec : Frag → Option (Val × Frag)
   gen : Gen Val := pure .unit
+  /-- the read sequence of the value's encoding (same recursion as `enc`); `Traced` (Proofs/Codec.lean) ties it to `enc` -/
+  trace : Val → List Ev := fun _ => []
+  /-- one generated value per PATH of the schema term (tag alternative × Maybe/Either bit × small flag field …),
+      truncated to `cap`; driver only, no theorem mentions it -/
+  paths : PMode → Gen (List Val) := fun _ => do return [← gen]
 
 /-- round trip + exact consumption, any continuation -/
 class Lawful (c : Codec) : Prop where
@@ -73,6 +97,30 @@ class Lawful (c : Codec) : Prop where
 /-- round trip + exact consumption for a codec that closes its cell (`Any` = the rest of the slice) -/
 class LawfulEnd (c : Codec) : Prop where
   law : ∀ v f, c.enc v = some f → c.dec f = some (v, Frag.nil)
+
+/-- the trace, replayed as a read script on a stack of open cells (top = current cell): `rd _ w` drops `w` bits,
+    `enter` opens the first unread reference (an ordinary cell), `leave` requires the open cell to be exhausted,
+    `rawref` drops a reference -/
+def Ev.step : Ev → List Frag → Option (List Frag)
+  | .rd _ w, s :: st => if s.bits.length < w then none else some (⟨s.bits.drop w, s.refs⟩ :: st)
+  | .enter, s :: st =>
+    match s.refs with
+    | Cell.mk false b r :: more => some (⟨b, r⟩ :: ⟨s.bits, more⟩ :: st)
+    | _ => none
+  | .leave, s :: st => match s.bits, s.refs with | [], [] => some st | _, _ => none
+  | .rawref, s :: st => match s.refs with | _ :: more => some (⟨s.bits, more⟩ :: st) | [] => none
+  | .push _, st => some st
+  | .pop, st => some st
+  | _, [] => none
+
+def replay : List Ev → List Frag → Option (List Frag)
+  | [], st => some st
+  | e :: es, st => match e.step st with | some st' => replay es st' | none => none
+
+/-- a codec whose trace is an exact read script of its encoding: replayed on the encoding followed by ANY continuation
+    (and any enclosing cells) it consumes exactly the encoding, every entered cell being exhausted when it is left -/
+class Traced (c : Codec) : Prop where
+  law : ∀ v f, c.enc v = some f → ∀ (k : Frag) (st : List Frag), replay (c.trace v) ((f ++ k) :: st) = some (k :: st)
 
 /-! ### generators (driver only) -/
 
@@ -118,6 +166,10 @@ def uint (n : Nat) : Codec where
   dec s := if s.bits.length < n then none
            else some (.int (natOfBits (s.bits.take n)), ⟨s.bits.drop n, s.refs⟩)
   gen := do return .int (← gUintVal n)
+  trace _ := [.rd "u" n]
+  -- a 1- or 2-bit number is a flag field that later fields may depend on: one path per value
+  paths _ := if n = 0 ∨ n > 2 then do return [.int (← gUintVal n)]
+             else pure ((List.range (2 ^ n)).map (fun (i : Nat) => Val.int i))
 
 /-- `intN`, two's complement -/
 def sint (n : Nat) : Codec where
@@ -136,6 +188,7 @@ def sint (n : Nat) : Codec where
     if n = 0 then return .int 0
     let u ← gUintVal n
     return .int (if u < 2 ^ (n - 1) then (u : Int) else (u : Int) - (2 ^ n : Int))
+  trace _ := [.rd "i" n]
 
 /-- `bitsN` / `(n * Bit)` -/
 def bitsC (n : Nat) : Codec where
@@ -148,6 +201,7 @@ def bitsC (n : Nat) : Codec where
     if mode = 0 then return .bits (List.replicate n false)
     if mode = 1 then return .bits (List.replicate n true)
     return .bits (← gBits n)
+  trace _ := [.rd "b" n]
 
 /-- `Bool` -/
 def boolC : Codec where
@@ -156,6 +210,7 @@ def boolC : Codec where
     | [] => none
     | b :: rest => some (.bool b, ⟨rest, s.refs⟩)
   gen := do return .bool (← gBool)
+  trace _ := [.rd "c" 1]
 
 /-- `int.bit_length` -/
 def bitLenF : Nat → Nat → Nat
@@ -182,6 +237,9 @@ def varUInt (k : Nat) : Codec where
   gen := do
     let len ← if (← gBool) then gNat 0 (min 3 (k - 1)) else gNat 0 (k - 1)
     return .int (← gUintVal (8 * len))
+  trace v := match v with
+    | .int i => [.rd ("v" ++ toString (bitLen (k - 1))) (bitLen (k - 1) + 8 * ((bitLen i.toNat + 7) / 8))]
+    | _ => []
 
 def grams : Codec := varUInt 16
 
@@ -197,6 +255,7 @@ def cellRef : Codec where
     let leaf := Cell.mk false [true, false, true] []
     let withRef ← gBool
     return .cell (Cell.mk false bs (if withRef then [leaf] else []))
+  trace _ := [.rawref]
 
 /-- `Any` : the rest of the slice as a cell (closes the cell) -/
 def rest : Codec where
@@ -208,6 +267,9 @@ def rest : Codec where
     let leaf := Cell.mk false [false, true, true, false] []
     let withRef ← gBool
     return .cell (Cell.mk false bs (if withRef then [leaf] else []))
+  trace v := match v with
+    | .cell (.mk _ b r) => .rd "b" b.length :: List.replicate r.length .rawref
+    | _ => []
 
 /-- `^X` : X in an ordinary cell of its own, which it fills exactly -/
 def ref (c : Codec) : Codec where
@@ -221,6 +283,8 @@ def ref (c : Codec) : Codec where
       | _ => none
     | _ => none
   gen := c.gen
+  trace v := .enter :: (c.trace v ++ [.leave])
+  paths m := c.paths m
 
 /-- `Maybe X` : `Val.unit` = nothing -/
 def maybe (c : Codec) : Codec where
@@ -232,6 +296,10 @@ def maybe (c : Codec) : Codec where
     | false :: r => some (.unit, ⟨r, s.refs⟩)
     | true :: r => c.dec ⟨r, s.refs⟩
   gen := do if (← gBool) then c.gen else pure .unit
+  trace v := match v with
+    | .unit => [.rd "c" 1]
+    | v => .rd "c" 1 :: c.trace v
+  paths m := do return (Val.unit :: (← c.paths m)).take m.cap
 
 /-- `Either X Y` -/
 def either (a b : Codec) : Codec where
@@ -244,6 +312,14 @@ def either (a b : Codec) : Codec where
     | false :: r => (a.dec ⟨r, s.refs⟩).map (fun (v, s') => (.con "left" v, s'))
     | true :: r => (b.dec ⟨r, s.refs⟩).map (fun (v, s') => (.con "right" v, s'))
   gen := do if (← gBool) then return .con "right" (← b.gen) else return .con "left" (← a.gen)
+  trace v := match v with
+    | .con "left" x => .rd "c" 1 :: a.trace x
+    | .con "right" y => .rd "c" 1 :: b.trace y
+    | _ => []
+  paths m := do
+    let l ← a.paths m
+    let r ← b.paths m
+    return (l.map (Val.con "left") ++ r.map (Val.con "right")).take m.cap
 
 /-- X with a side condition `{ p }` on its value -/
 def constrained (c : Codec) (p : Val → Bool) (g : Option (Gen Val) := none) : Codec where
@@ -252,15 +328,40 @@ def constrained (c : Codec) (p : Val → Bool) (g : Option (Gen Val) := none) : 
     | some (v, s') => if p v then some (v, s') else none
     | none => none
   gen := g.getD c.gen
+  trace := c.trace
+  paths m := do
+    match g with
+    | some g => return [← g]
+    | none =>
+      let vs := (← c.paths m).filter p
+      if vs.isEmpty then return [← c.gen] else return vs
 
-/-- same codec, other generator -/
-def withGen (c : Codec) (g : Gen Val) : Codec := { c with gen := g }
+/-- same codec, other generator (one sampled path) -/
+def withGen (c : Codec) (g : Gen Val) : Codec := { c with gen := g, paths := fun _ => do return [← g] }
+
+/-- same codec, other path enumeration -/
+def withPaths (c : Codec) (p : PMode → Gen (List Val)) : Codec := { c with paths := p }
+
+/-- a NAMED TL-B type (= one parser function of the library): in `loc` mode its branch structure is enumerated only when
+    it is the type under test; nested occurrences are sampled -/
+def typ (_name : String) (c : Codec) : Codec :=
+  { c with paths := fun m => if m.loc && m.nested then do return [← c.gen] else c.paths { m with nested := true } }
+
+/-- same codec; every read of its trace is reported as control bits (dictionary labels: the library's label reader is not
+    a field reader) -/
+def Ev.untype : Ev → Ev
+  | .rd _ w => .rd "c" w
+  | e => e
+def untyped (c : Codec) : Codec :=
+  { c with trace := fun v => (c.trace v).map Ev.untype }
 
 /-- a constant prefix `$0111` / `#9bc7a987` in front of X (no wrapper in the value) -/
 def ctag (p : Bits) (c : Codec) : Codec where
   enc v := (c.enc v).map (Frag.ofBits p ++ ·)
   dec s := if p.isPrefixOf s.bits then c.dec ⟨s.bits.drop p.length, s.refs⟩ else none
   gen := c.gen
+  trace v := .rd "c" p.length :: c.trace v
+  paths m := c.paths m
 
 /-- tag bits from a number: `tag 4 0b0111`, `tag 32 0x9bc7a987` -/
 def tag (n v : Nat) : Bits := natToBits n v
@@ -301,11 +402,28 @@ def genFields : List Field → Env → Gen (List (String × Val))
     let vs ← genFields fs ((n, v) :: env)
     pure ((n, v) :: vs)
 
+/-- same recursion as `encFields` -/
+def traceFields : List Field → Env → List (String × Val) → List Ev
+  | (n, f) :: fs, env, (_, v) :: vs => (.push n :: (f env).trace v) ++ (.pop :: traceFields fs ((n, v) :: env) vs)
+  | _, _, _ => []
+
+/-- one record per combination of the fields' paths (dependent fields see the chosen earlier values) -/
+def pathsFields : List Field → PMode → Env → Gen (List (List (String × Val)))
+  | [], _, _ => pure [[]]
+  | (n, f) :: fs, m, env => do
+    let vs ← (f env).paths m
+    vs.foldlM (fun acc v => do
+      if acc.length ≥ m.cap then return acc
+      let rs ← pathsFields fs m ((n, v) :: env)
+      return (acc ++ rs.map ((n, v) :: ·)).take m.cap) []
+
 /-- `a:A b:B …` -/
 def recd (fs : List Field) : Codec where
   enc v := match v with | .record vs => encFields fs [] vs | _ => none
   dec s := (decFields fs [] s).map (fun (vs, s') => (.record vs, s'))
   gen := do return .record (← genFields fs [])
+  trace v := match v with | .record vs => traceFields fs [] vs | _ => []
+  paths m := do return (← pathsFields fs m []).map Val.record
 
 class LawfulFields (fs : List Field) : Prop where
   law : ∀ env vs f, encFields fs env vs = some f → ∀ k : Frag, decFields fs env (f ++ k) = some (vs, k)
@@ -328,6 +446,19 @@ def decAlts : List Alt → Frag → Option (Val × Frag)
     if p.isPrefixOf s.bits then
       (c.dec ⟨s.bits.drop p.length, s.refs⟩).map (fun (v, s') => (.con name v, s'))
     else decAlts more s
+
+/-- same recursion as `encAlts` -/
+def traceAlts : List Alt → String → Val → List Ev
+  | [], _, _ => []
+  | (p, name, c) :: more, nm, v =>
+    if nm = name then .rd "c" p.length :: .push ("$" ++ name) :: (c.trace v ++ [.pop]) else traceAlts more nm v
+
+def pathsAlts : List Alt → PMode → Gen (List Val)
+  | [], _ => pure []
+  | (_, name, c) :: more, m => do
+    let a ← c.paths m
+    let b ← pathsAlts more m
+    return (a.map (Val.con name) ++ b).take m.cap
 
 def noClash (p : Bits) : List Bits → Bool
   | [] => true
@@ -352,7 +483,9 @@ def tagged (alts : List Alt) : Codec :=
   if prefixFree (altTags alts) then
     { enc := fun v => match v with | .con nm x => encAlts alts nm x | _ => none
       dec := fun s => decAlts alts s
-      gen := genAlts alts }
+      gen := genAlts alts
+      trace := fun v => match v with | .con nm x => traceAlts alts nm x | _ => []
+      paths := fun m => pathsAlts alts m }
   else failC
 
 class LawfulAlts (alts : List Alt) : Prop where
@@ -366,6 +499,8 @@ def named (name : String) (c : Codec) : Codec where
   enc v := match v with | .con nm x => if nm = name then c.enc x else none | _ => none
   dec s := (c.dec s).map (fun (v, s') => (.con name v, s'))
   gen := do return .con name (← c.gen)
+  trace v := match v with | .con _ x => .push ("$" ++ name) :: (c.trace x ++ [.pop]) | _ => []
+  paths m := do return (← c.paths m).map (Val.con name)
 
 /-! ### numeric ranges -/
 
@@ -375,11 +510,18 @@ def vBetween (lo hi : Nat) : Val → Bool
 
 /-- `uint n` restricted to `lo..hi`; generator: lo, hi or random in between -/
 def uintRange (n lo hi : Nat) : Codec :=
-  constrained (uint n) (vBetween lo hi) (some (do
+  withPaths (constrained (uint n) (vBetween lo hi) (some (do
     let mode ← gNat 0 3
     if mode = 0 then return .int lo
     if mode = 1 then return .int hi
-    return .int (← gNat lo hi)))
+    return .int (← gNat lo hi))))
+    (fun _ => do
+      -- a range of at most 4 values is a flag field: one path per value
+      if hi - lo ≤ 3 then return (List.range (hi - lo + 1)).map (fun (i : Nat) => Val.int ((lo + i : Nat) : Int))
+      let mode ← gNat 0 3
+      if mode = 0 then return [.int lo]
+      if mode = 1 then return [.int hi]
+      return [.int (← gNat lo hi)])
 
 /-- `#<= m` -/
 def uintLe (m : Nat) : Codec := uintRange (bitLen m) 0 m
@@ -400,10 +542,11 @@ def unary : Codec where
     | _ => none
   dec s := (decUnary s.bits).map (fun (n, r) => (.int n, ⟨r, s.refs⟩))
   gen := do return .int (← gNat 0 6)
+  trace v := match v with | .int i => [.rd "c" (i.toNat + 1)] | _ => []
 
 /-- `HmLabel ~n m` ; the value carries the constructor and `n` -/
 def hmLabel (m : Nat) : Codec :=
-  tagged [
+  untyped <| tagged [
     ([false], "hml_short", recd [fld "n" (constrained unary (vBetween 0 m)), dep "s" (fun e => bitsC (e.nat "n"))]),
     ([true, false], "hml_long", recd [fld "n" (uintLe m), dep "s" (fun e => bitsC (e.nat "n"))]),
     ([true, true], "hml_same", recd [fld "v" boolC, fld "n" (uintLe m)])]
